@@ -511,6 +511,15 @@ func run(c Case) (res evid.Result) {
 		res.Skip, res.Excluded = true, e
 		return
 	}
+	if outsideModel(c) {
+		// not a finding: the membership model puts a definition reference into a closing group of its
+		// own, which is too strict when the same field is declared twice inside one definition, once
+		// with a literal and once with a reference (the definition closes what it evaluates to, so the
+		// two declarations allow each other's fields). Such cases are outside the model's domain.
+		res.Skip = true
+		res.Classes = []string{"outside-model:field-declared-by-literal-and-reference"}
+		return
+	}
 	m := &Model{defs: c.Defs}
 	src := source(c)
 	us, ls := m.flatten(c.Schema, false, nil)
@@ -555,7 +564,20 @@ func gen(t *rapid.T) Case {
 		c.Defs = append(c.Defs, g.lit(2, i, 1))
 	}
 	c.Schema = g.structExpr(2, nd, 1, true)
-	if rapid.Bool().Draw(t, "schemaAware") {
+	embedsRef := false
+	chk := func(e *Expr, w where) {
+		if w.inEmbed && e.Kind == "ref" {
+			embedsRef = true
+		}
+	}
+	walkExpr(c.Schema, where{}, chk)
+	for _, d := range c.Defs {
+		walkLit(d, where{inDef: true}, chk)
+	}
+	// schema-aware data reaches deep into the schema; where a definition is embedded anywhere the
+	// unchanged tree deviates there in several ways (F14, F82 and nested variants of them), so such
+	// schemas keep the shallow random data
+	if rapid.Bool().Draw(t, "schemaAware") && !(excl && embedsRef) {
 		c.Data = dataFor(t, c.Schema, c.Defs, 2)
 	} else {
 		c.Data = dataLit(t, 2)
@@ -606,6 +628,62 @@ func walkLit(l *Lit, w where, f func(e *Expr, w where)) {
 	for _, x := range l.Embeds {
 		walkExpr(x, ew, f)
 	}
+}
+
+func outsideModel(c Case) bool {
+	bad := false
+	var lit func(l *Lit)
+	var expr func(e *Expr)
+	expr = func(e *Expr) {
+		if e == nil {
+			return
+		}
+		switch e.Kind {
+		case "and":
+			expr(e.Args[0])
+			expr(e.Args[1])
+		case "lit", "close":
+			lit(e.Lit)
+		}
+	}
+	lit = func(l *Lit) {
+		kinds := map[string]int{} // label -> bit 1: declared with a reference, bit 2: with a literal
+		var collect func(x *Lit)
+		collect = func(x *Lit) {
+			for _, f := range x.Fields {
+				switch f.Val.Kind {
+				case "ref":
+					kinds[f.Label] |= 1
+				case "lit", "close", "and":
+					kinds[f.Label] |= 2
+				}
+			}
+			for _, e := range x.Embeds {
+				if e.Lit != nil {
+					collect(e.Lit) // an embedded literal declares fields of the same struct
+				}
+			}
+		}
+		collect(l)
+		for _, f := range l.Fields {
+			expr(f.Val)
+		}
+		for _, k := range kinds {
+			if k == 3 {
+				bad = true
+			}
+		}
+		for _, p := range l.Pats {
+			expr(p.Val)
+		}
+		for _, e := range l.Embeds {
+			expr(e)
+		}
+	}
+	for _, d := range c.Defs {
+		lit(d)
+	}
+	return bad
 }
 
 // excluded names the known finding whose root cause this case contains.
